@@ -1,6 +1,6 @@
 (* C05/C11/C07w correspondence: schedules run on the real write path (harness/db/verif_c05_test.go) are
    replayed on the model. *)
-From SG Require Export Base.Prelude C05.WriteLoop.
+From SG Require Export Base.Prelude C05.WriteLoop C05.RevOptions.
 Open Scope N_scope.
 
 (* the tree is [code_fixed]: the unused-sequence repairs (fix: commits) are in /repo *)
@@ -9,8 +9,19 @@ Definition code_fixed : bool := true.
 Record final := Fin { f_seq : N; f_unused : list N; f_cur : option revid;
                       f_tree : list (revid * option revid * bool); f_released : list N; f_last : N }.
 
+(* a REST Put, or a revision pushed through db.PutExistingRevWithBody (default options) *)
 Definition W (tag : N) (parent : option revid) (push : list revid) (deleted reject : bool) (fail_after : list bool) (fail_write : bool) : wop :=
-  {| w_tag := tag; w_parent := parent; w_deleted := deleted; w_push := push; w_reject := reject; w_fail_after := fail_after; w_fail_write := fail_write |}.
+  {| w_tag := tag; w_parent := parent; w_deleted := deleted; w_push := push; w_reject := reject; w_fail_after := fail_after; w_fail_write := fail_write;
+     w_opt := no_opts |}.
+(* a revision pushed through db.PutExistingRevWithConflictResolution with explicit PutDocOptions *)
+Definition WO (force noconf : bool) (tag : N) (parent : option revid) (push : list revid) (deleted reject : bool) (fail_after : list bool) (fail_write : bool) : wop :=
+  {| w_tag := tag; w_parent := parent; w_deleted := deleted; w_push := push; w_reject := reject; w_fail_after := fail_after; w_fail_write := fail_write;
+     w_opt := {| o_force := force; o_resolver := false; o_noconf := noconf |} |}.
+(* a rev message handled by the BLIP rev handler of a connection (peer gateway? revtree resolver? HLV resolver?) with
+   the message property noconflicts: the options are DERIVED here, by [rev_opts], not reported by the harness *)
+Definition WB (sgr2 rt_resolver hlv_resolver noconf : bool) (tag : N) (parent : option revid) (push : list revid) (deleted reject : bool) (fail_after : list bool) (fail_write : bool) : wop :=
+  pushed_over {| k_sgr2 := sgr2; k_rt_resolver := rt_resolver; k_hlv_resolver := hlv_resolver |} noconf
+              (W tag parent push deleted reject fail_after fail_write).
 
 Inductive case :=
 | CWrite (allow_conflicts : bool) (tab : digtab) (ops : list wop) (sched : list sstep)
